@@ -108,4 +108,11 @@ CHECKS["C19"] = {
   "design_ref": "DESIGN.md §5 C19",
   "note": "One connection, pass-through frames only (the node's receiver reads nothing else); fake EPMD via the guarded port override; delivery observed after a 30 ms settle time.",
 }
+CHECKS["C18"] = {
+  "level": "model_checking",
+  "technique": "TLA+ spec of registry, mailboxes, links, monitors and exit propagation (LocalProc.tla) model-checked by TLC over all interleavings of two client tasks with the process steps; TLC-generated operation sequences executed on a real Node with recording handlers; adversarial race schedule forced through guarded hooks",
+  "text": "TLC checks NameFreedAfterExit, HandledOnceInOrder, NoticeAtMostOnce on every interleaving (2 clients, 2-3 processes, 5 operations, two-step send_to_name and link) and LinkedNotifiedSeq on the sequential behaviours; it must find the counterexamples for NamesSurviveExit and for the late link. Operation sequences over spawn / register / unregister / send / send_to_name / kill / link / unlink / monitor / demonitor (length 4 exhaustive or sampled, length 8 simulated) run on a real node: per process the handled messages in order, the exit / down notices with identifier and reference, name resolution, liveness and each operation's outcome must equal the model's. The late-link schedule is forced on the real code and reported as KNOWN-FINDING C18-late-link.",
+  "design_ref": "DESIGN.md §5 C18",
+  "note": "Real executions are sequential apart from the one adversarial schedule; gen_server / gen_event call-reply not bound yet. Fake EPMD via the guarded port override.",
+}
 NOT_APPLICABLE = {}
